@@ -44,8 +44,11 @@ Theorem c01_shapes_of_this_tree_are_locked :
    modelled_writes lint_prog = [LViol; LNotice; LAggs; LDirs]) /\
   (Gen.LinterShape.input_worker_found = true /\
    all_shared_writes_locked iloc_eqb input_prog = true /\
-   cs_writes input_prog = [IErrors; IFiles]).
-Proof. exact (conj lint_shape_ok input_shape_ok). Qed.
+   cs_writes input_prog = [IErrors; IFiles]) /\
+  (* internal/cache: Get and Put touch the trie only inside their (R)Lock ... (R)Unlock *)
+  (Gen.LinterShape.cache_get_found = true /\ cache_method_locked cache_get_prog = true /\
+   Gen.LinterShape.cache_put_found = true /\ cache_method_locked cache_put_prog = true).
+Proof. exact (conj lint_shape_ok (conj input_shape_ok cache_shapes_ok)). Qed.
 Print Assumptions c01_shapes_of_this_tree_are_locked.
 
 (* Merging the same per-file results in another order gives the same violations and notices as
